@@ -69,6 +69,10 @@ def native(letter, n):
     elif letter == 'unequal':
         c = np.array([10.0, 13.0, 15.0, 20.0, 23.5, 26.5])[:n]
         w = np.array([2.0, 3.0, 1.0, 6.0, 1.0, 1.0])[:n]
+    elif letter == 'unequal2':
+        # same point count and the same first and last centre as 'unequal', other interior points (reuse phase only)
+        c = np.array([10.0, 12.5, 16.0, 19.0, 24.0, 26.5])[:n]
+        w = np.array([2.0, 2.0, 3.0, 2.0, 2.0, 1.0])[:n]
     else:
         raise ValueError(letter)
     return c, w
@@ -619,7 +623,7 @@ def explore(ctx):
 
     nc = [{'grid': g, 'n': n} for g in GRIDS for n in (2, 3, 4)]
     ctx.run_cases('fam_native', nc, phase='native', chunk=1)
-    calls = [[g, n, gw, dim, err] for g, n in (('uniform', 4), ('unequal', 6), ('log', 3))
+    calls = [[g, n, gw, dim, err] for g, n in (('uniform', 4), ('unequal', 6), ('log', 3), ('unequal2', 6))
              for gw in ('explicit', 'none') for dim in (1, 2) for err in ('none', 'distinct')]
     depth = 3 if thorough else 2
     rc = []
